@@ -27,6 +27,30 @@ mod rng;
 
 use std::path::PathBuf;
 
+/// Which variant of the WAL / segment code /repo currently has.  The harness sends these to the
+/// model drivers (ops `G`, `V`), so they are the ONE place to edit when /repo changes variant.
+pub mod cfg {
+    /// WalRotator: true = rotate() fsyncs the writer it drops, a lost writer fails the next sync()
+    pub const CODE_SYNCS_BEFORE_DROP: bool = true;
+    /// WAL on-disk format: 2 = entry checksum over len|timestamp|data, empty entry rejected
+    pub const CODE_WAL_FORMAT: u8 = 2;
+    /// segment DeltaIterator: true = error when fewer records than record_count are present
+    pub const CODE_SEGMENT_STRICT_COUNT: bool = true;
+
+    /// the entry checksum of the current format (private `entry_checksum` in /repo)
+    pub fn entry_checksum(ts: u64, data: &[u8]) -> u32 {
+        if CODE_WAL_FORMAT == 1 {
+            crc32fast::hash(data)
+        } else {
+            let mut h = crc32fast::Hasher::new();
+            h.update(&(data.len() as u32).to_le_bytes());
+            h.update(&ts.to_le_bytes());
+            h.update(data);
+            h.finalize()
+        }
+    }
+}
+
 #[global_allocator]
 static GLOBAL: alloc::Counting = alloc::Counting;
 
